@@ -9,6 +9,7 @@ import Ogen.RouterDriver
 import Ogen.SecurityHandler_proof
 import Ogen.ValidateModel_proof
 import Ogen.OptNilStates_proof
+import Ogen.HandlerStages_proof
 
 /-! Line-protocol driver over all executable models: `<model> <payload>` per line, one
     canonical output line per input line. Core-only (no Mathlib) so it links natively. -/
@@ -47,6 +48,7 @@ def dispatch (line : String) : String :=
     | "vprops" => ValidateM.vpropsLine payload
     | "vuniq" => ValidateM.vuniqLine payload
     | "optnil" => OptNil.optnilLine payload
+    | "stage" => Stages.stageLine payload
     | "jeq" => JEqDrv.runLine payload
     | "enum" => JEqDrv.enumLine payload
     | _ => "bad-model"
